@@ -65,7 +65,7 @@ def ref_set_compiles(decls, attrs=()):
 def plan(tier):
     if tier == 'thorough':
         return dict(small=[dict(n=2, parts=2), dict(n=2, parts=3, queries_only=True), dict(n=3, parts=2, queries_only=True)], per=3000, corpus_pairs=None)
-    return dict(small=[dict(n=2, parts=2)], per=900, corpus_pairs=160)
+    return dict(small=[dict(n=2, parts=2)], per=900, corpus_pairs=600)
 
 
 def check(run):
@@ -98,7 +98,7 @@ def check(run):
     import random
     rnd = random.Random(run.seed)
     sets = []
-    pairs = list(itertools.permutations(CORPUS_DECLS, 2))
+    pairs = list(itertools.permutations(CORPUS_DECLS + SUFFIX_DECLS, 2))
     rnd.shuffle(pairs)
     if pl['corpus_pairs']:
         # always keep the colliding pairs (they are the rarer class)
@@ -145,6 +145,8 @@ def check(run):
     # ---- "never shadowed" at run time: in every set that compiles, every reference spelling of every declaration reaches its own handler
     ok_sets = [st for st, (compiles, err) in zip(sets, got) if compiles and ref_set_compiles(st['decls'], st['attrs']) and all(ref_self_ok(d) for d in st['decls'])]
     # (a declaration written in lower case only has an empty short form: no header spells it, such "spellings" are not sent)
+    if run.tier != 'thorough':
+        ok_sets = ok_sets[:400]
     spell = [[[':'.join(pth) + ('?' if d.endswith('?') else '') for pth in sorted(set(raw_paths(d))) if all(pth)] for d in st['decls']] for st in ok_sets]
     try:
         fails = compile_probe.run_sets(ok_sets, spell)
